@@ -917,6 +917,47 @@ def r13_metadata_tables(ctx, res):
     r4_metadata_tables(ctx, res)
 
 
+def r14_distinct_keeps_rows(ctx, res):
+    """everything stored is reported: SELECT DISTINCT merges rows that agree in every selected column, so a reader may use it
+    only when the select list carries the rowid of the table whose rows it lists (duplicates are then join artefacts, not data)
+    - tags, pronunciations, definitions, examples and counts are multisets: the same <Tag> twice on a form is two rows.  The
+    three relation queries de-duplicate declared relations on purpose (C11-R2) and are exempt."""
+    from .c11 import REL_QUERIES
+    n = 0
+    seen = set()
+    for site in ctx.sites:
+        if site.func.module.short != '_queries':
+            continue
+        for v in site.variants:
+            st = v.stmt
+            if st is None or st.verb != 'SELECT':
+                continue
+            sel = tuple(x.replace(' ', '') for x in (st.select_list() or []))
+            sig = (site.func.name, bool(st.distinct()), sel)
+            if sig in seen:
+                continue
+            seen.add(sig)
+            n += 1
+            key = f'distinct:{site.func.name}'
+            if not st.distinct():
+                res.inst(key, site.loc, 'no DISTINCT')
+                continue
+            if site.func.name in REL_QUERIES:
+                res.inst(key, site.loc, 'DISTINCT over declared relations (specified: C11-R2)')
+                continue
+            occ0 = [o for o in st.occs if o.scope == 0 and o.kind == 'table']
+            main = occ0[0] if occ0 else None
+            ok = main is not None and (f'{main.alias}.rowid' in sel or ('rowid' in sel and len(occ0) == 1))
+            res.inst(key, site.loc, f'DISTINCT; lists rows of {main.table if main else None}; row key selected: {ok}')
+            if not ok:
+                res.find(key, site.loc,
+                         f'{site.func.name} reads with SELECT DISTINCT {list(sel)[:4]} but does not select the rowid of '
+                         f'{main.table if main else "its table"}: two stored rows that agree in these columns (the same tag / text '
+                         f'declared twice, or once by a lexicon and once by its extension) are reported as one')
+    if n < 25:
+        raise AnalysisError(f'only {n} distinct SELECT shapes found in wn/_queries.py')
+
+
 RULES = [
     ('C01-R1', r1_compile_arity, 150),
     ('C01-R2', r2_bindings, 200),
@@ -931,4 +972,5 @@ RULES = [
     ('C01-R11', r11_reader_text, 3),
     ('C01-R12', r12_id_lookups_use_equality, 30),
     ('C01-R13', r13_metadata_tables, 3),
+    ('C01-R14', r14_distinct_keeps_rows, 25),
 ]
